@@ -30,9 +30,10 @@ Lemma disc_counts_step m e pre :
   disc_counts (snd (disc_step true m e)) (pre ++ [e]).
 Proof.
   destruct m as [st ph]. unfold disc_counts. cbn [snd]. rewrite !cnt_snoc.
-  destruct e; cbn; intros H Hb;
+  intros H Hb.
+  destruct ph, e; cbn in *; try discriminate; try lia;
   repeat match goal with
-         | |- context[match ?p with PStart _ => _ | _ => _ end] => destruct p; cbn in *
+         | H : context[if ?c then _ else _] |- _ => destruct c eqn:?; cbn in *
          | |- context[if ?c then _ else _] => destruct c eqn:?; cbn in *
          | H : (_ =? _)%nat = true |- _ => apply Nat.eqb_eq in H; subst
          end; try discriminate; try lia; try tauto.
